@@ -157,24 +157,79 @@ theorem Inv.connConnect {s : St} (h : Inv s) {a c : Nat} (f : Bool) (hl : lookup
 
 theorem Inv.connectSingle {s : St} (h : Inv s) (a : Nat) (p f : Bool) : Inv (s.connectSingle a p f) := by
   unfold St.connectSingle
-  simp only
-  split
-  · exact h
-  · rename_i hlive
-    split
-    · exact h
-    · cases hl : lookup (NodeId.tcp a) s.reg with
+  by_cases h1 : s.regLive (NodeId.tcp a) = true
+  · simp only [h1, if_true]; exact h
+  · simp only [h1]
+    by_cases h2 : (!s.shouldConnect a p) = true
+    · simp only [h2, if_true]; exact h
+    · simp only [h2]
+      cases hl : lookup (NodeId.tcp a) s.reg with
       | none => exact h.emit _
       | some c =>
         simp only
-        split
-        · exact h
-        · have h1 : Inv { s with lastAttempt := setKey a s.now s.lastAttempt } :=
+        by_cases h3 : s.recent a = true
+        · simp only [h3, if_true]; exact h
+        · simp only [h3]
+          have hI : Inv { s with lastAttempt := setKey a s.now s.lastAttempt } :=
             h.frame rfl rfl rfl rfl (fun _ hn => hn)
-          refine h1.connConnect f (a := a) hl ?_
+          refine hI.connConnect f (a := a) hl ?_
           intro k hk
           have hk' : s.conn? c = some k := hk
-          simp [St.regConn, hl, hk'] at hlive
-          exact hlive
+          simp [St.regLive, St.regConn, hl, hk'] at h1
+          exact h1
+
+/-- The effect of `disconnect()` on an object that is not DISCONNECTED. -/
+theorem Inv.onDisconnected {s : St} (h : Inv s) {c : Nat} {k : Conn} (hk : s.conn? c = some k)
+    (p : Option NodeId) (f : Bool) :
+    Inv ((s.setConn c { k with state := .disconnected, gen := k.gen + 1 }).onDisconnected c p f) := by
+  unfold St.onDisconnected
+  simp only
+  have hreg : (s.setConn c { k with state := .disconnected, gen := k.gen + 1 }).reg = s.reg := rfl
+  simp only [hreg]
+  cases hn : connToNode c s.reg with
+  | none =>
+    simp only
+    refine h.setConn' (k' := { k with state := .disconnected, gen := k.gen + 1 }) rfl rfl rfl rfl hk rfl
+      (fun hs => absurd rfl hs) ?_
+    intro n hv
+    refine ⟨hv, fun hl => ?_⟩
+    rw [(h.c2n c n).mpr hl] at hn
+    cases hn
+  | some n =>
+    simp only
+    have hl : lookup n s.reg = some c := (h.c2n c n).mp hn
+    have hbase : ∀ (s' : St), s'.reg = s.reg → s'.nodes = s.nodes → s'.selfAddr = s.selfAddr →
+        s'.conns = s.conns.set c { k with state := .disconnected, gen := k.gen + 1 } →
+        s'.view = eraseAll n s.view → Inv s' := by
+      intro s' e1 e2 e3 e4 e5
+      refine h.setConn' (k' := { k with state := .disconnected, gen := k.gen + 1 }) e1 e2 e3 e4 hk rfl
+        (fun hs => absurd rfl hs) ?_
+      intro n' hv
+      rw [e5] at hv
+      obtain ⟨hv1, hv2⟩ := mem_eraseAll.mp hv
+      refine ⟨hv1, fun hl' => ?_⟩
+      exact absurd (h.inj _ _ _ hl' hl) hv2
+    split
+    · cases n with
+      | tcp a =>
+        simp only
+        exact (hbase _ rfl rfl rfl rfl rfl).connectSingle a _ f
+      | ro r =>
+        simp only
+        exact hbase _ rfl rfl rfl rfl rfl
+    · cases n with
+      | tcp a => exact hbase _ rfl rfl rfl rfl rfl
+      | ro r => exact hbase _ rfl rfl rfl rfl rfl
+
+theorem Inv.connDisconnect {s : St} (h : Inv s) (c : Nat) (p : Option NodeId) (f : Bool) :
+    Inv (s.connDisconnect c p f) := by
+  unfold St.connDisconnect
+  cases hk : s.conn? c with
+  | none => exact h
+  | some k =>
+    simp only
+    split
+    · exact h
+    · exact h.onDisconnected hk p f
 
 end PSO.Transport
